@@ -235,6 +235,14 @@ UNIT['parts'] += [
                   '&& is_digit_run(old(self).input@, old(self).position + 1, final(self).position as int) && r->Ok_0.1->Numeric_1@ == old(self).input@.subrange(old(self).position + 1, final(self).position as int)')]},
 ]
 
+UNIT['parts'] += [
+    lx('nest_between', props=['C06', 'C05'],
+       requires=[('fewer_brackets_than_the_machine_can_count', 'old(self).between@.len() > 0 ==> old(self).between@.last() < usize::MAX')],
+       ensures=[('only_the_innermost_between_counts', 'final(self).between@.len() == old(self).between@.len() && forall |i: int| 0 <= i < old(self).between@.len() - 1 ==> final(self).between@[i] == old(self).between@[i]'),
+                ('an_opening_bracket_counts_up_a_closing_one_down_to_zero', 'old(self).between@.len() > 0 ==> final(self).between@.last() == (if opened { old(self).between@.last() + 1 } else if old(self).between@.last() > 0 { old(self).between@.last() - 1 } else { 0 })'),
+                ('frame', 'final(self).input == old(self).input && final(self).position == old(self).position')]),
+]
+
 BOUNDED = {
     'C06': [{'name': 'every-code-point-in-every-escape-spelling', 'driver': 'escapes', 'args': ['1'],
              'functions': ['Lexer::consume_string / consume_unicode / consume_unicode_literal through parse_expression'],
